@@ -81,7 +81,8 @@ class PandasDataFrameCache(FileCache):
                 df = pd.concat([df, new_df])
             except FileNotFoundError:
                 df = new_df
-            df = df.sort_index()
+            # stable: among rows with an equal index the stored one stays in front of the new one (keep='first')
+            df = df.sort_index(kind='stable')
             df = df[~df.index.duplicated(keep='first')]
             update_applied = self.update_file(file_name, serialize_df(df))
             return df if update_applied else self.update(file_name, new_df)
